@@ -999,8 +999,25 @@ impl DhtNetworkManager {
                 );
 
                 match result {
-                    Ok(DhtNetworkResult::ValueFound { value, source, .. })
-                    | Ok(DhtNetworkResult::GetSuccess { value, source, .. }) => {
+                    Ok(DhtNetworkResult::ValueFound {
+                        key: reply_key,
+                        value,
+                        source,
+                    })
+                    | Ok(DhtNetworkResult::GetSuccess {
+                        key: reply_key,
+                        value,
+                        source,
+                    }) => {
+                        // A value is only an answer to this lookup if the reply is about
+                        // the key that was asked for.
+                        if reply_key != *key {
+                            debug!("Peer {} answered with a value for a different key", peer_id);
+                            peers_failed += 1;
+                            last_error = Some("Reply carried a value for a different key".into());
+                            self.record_peer_failure(&peer_id).await;
+                            continue;
+                        }
                         self.record_peer_success(&peer_id).await;
                         // FOUND IT!
                         info!("Found value via iterative lookup from {}", source);
